@@ -332,9 +332,10 @@ func TarsFrames() []Frame {
 		tarsFrame("one-way", &requestf.RequestPacket{IVersion: 1, CPacketType: 1, IRequestId: 0, SServantName: "s", SFuncName: "f"}),
 		tarsAnnotate("request, body as SIMPLE_LIST with 4-byte length", tarsWideVector(tarsBody(&requestf.RequestPacket{IVersion: 1, IRequestId: 5,
 			SServantName: "App.Svc.Obj", SFuncName: "hello", SBuffer: []int8{1, 2, 3, 4, 5}, ITimeout: 3000}), 7, false)),
-		tarsAnnotate("request, body as LIST of bytes with 4-byte length", tarsWideVector(tarsBody(&requestf.RequestPacket{IVersion: 1, IRequestId: 6,
-			SServantName: "App.Svc.Obj", SFuncName: "hello", SBuffer: []int8{1, 2, 3, 4, 5}, ITimeout: 3000}), 7, true)),
 		tarsAnnotate("response, body as SIMPLE_LIST with 4-byte length", tarsWideVector(tarsBody(&requestf.ResponsePacket{IVersion: 1, IRequestId: 7, SBuffer: []int8{9, 8, 7},
 			SResultDesc: "ok"}), 6, false)),
+		// last: on the unfixed tree every large length in this frame costs GiBs and up to 2^31 loop iterations
+		tarsAnnotate("request, body as LIST of bytes with 4-byte length", tarsWideVector(tarsBody(&requestf.RequestPacket{IVersion: 1, IRequestId: 6,
+			SServantName: "App.Svc.Obj", SFuncName: "hello", SBuffer: []int8{1, 2, 3, 4, 5}, ITimeout: 3000}), 7, true)),
 	}
 }
